@@ -573,6 +573,15 @@ func runBatch(bin, work, id, tier string, seed uint64, slot, b, nb, fromIdx, toI
 	env := append(os.Environ(), "GOTRACEBACK=all")
 	if race {
 		env = append(env, fmt.Sprintf("GORACE=halt_on_error=0 log_path=%s", filepath.Join(work, "race")))
+		if id == "C18" {
+			// real parallelism varies per child process: time slicing only, two threads, all cores
+			switch b % 3 {
+			case 0:
+				env = append(env, "GOMAXPROCS=1")
+			case 1:
+				env = append(env, "GOMAXPROCS=2")
+			}
+		}
 	}
 	from := fromIdx
 	for attempt := 0; attempt < 6; attempt++ {
